@@ -174,51 +174,57 @@ Record conn := {
   c_acted : list act;                    (* ghost: frames the role's driver acted upon *)
   c_taken : list frame;                  (* ghost: frames poll_next handed to poll_control *)
   c_handed : list frame;                 (* ghost: frames poll_control returned to the role's driver (the cfg(h3_verif) log) *)
-  c_cause : option cause                 (* ghost: which site produced the connection error *)
+  c_cause : option cause;                (* ghost: which site produced the connection error *)
+  c_ctl0 : option fstream;               (* ghost: the control FrameStream (with its queue) when it was claimed *)
+  c_trace : list action                  (* ghost: since then, the arrivals on that stream and the poll_next calls *)
 }.
 
 Definition new_conn (grease : bool) : conn :=
   {| c_pending := []; c_control := None; c_enc := false; c_dec := false; c_wt := 0; c_got := false; c_err := None;
      c_gflag := grease; c_gstep := GNotStarted; c_gid := 0; c_settings := None; c_closing := false;
-     c_recv_closing := None; c_acted := []; c_taken := []; c_handed := []; c_cause := None |}.
+     c_recv_closing := None; c_acted := []; c_taken := []; c_handed := []; c_cause := None; c_ctl0 := None; c_trace := [] |}.
 
 Definition set_pending (c : conn) (p : list (N * arecv)) : conn :=
   {| c_pending := p; c_control := c_control c; c_enc := c_enc c; c_dec := c_dec c; c_wt := c_wt c; c_got := c_got c;
      c_err := c_err c; c_gflag := c_gflag c; c_gstep := c_gstep c; c_gid := c_gid c; c_settings := c_settings c;
-     c_closing := c_closing c; c_recv_closing := c_recv_closing c; c_acted := c_acted c; c_taken := c_taken c; c_handed := c_handed c; c_cause := c_cause c |}.
+     c_closing := c_closing c; c_recv_closing := c_recv_closing c; c_acted := c_acted c; c_taken := c_taken c; c_handed := c_handed c; c_cause := c_cause c; c_ctl0 := c_ctl0 c; c_trace := c_trace c |}.
 Definition set_slots (c : conn) (ctl : option (N * fstream)) (e d : bool) (wt : N) : conn :=
   {| c_pending := c_pending c; c_control := ctl; c_enc := e; c_dec := d; c_wt := wt; c_got := c_got c;
      c_err := c_err c; c_gflag := c_gflag c; c_gstep := c_gstep c; c_gid := c_gid c; c_settings := c_settings c;
-     c_closing := c_closing c; c_recv_closing := c_recv_closing c; c_acted := c_acted c; c_taken := c_taken c; c_handed := c_handed c; c_cause := c_cause c |}.
+     c_closing := c_closing c; c_recv_closing := c_recv_closing c; c_acted := c_acted c; c_taken := c_taken c; c_handed := c_handed c; c_cause := c_cause c; c_ctl0 := c_ctl0 c; c_trace := c_trace c |}.
 Definition set_control (c : conn) (ctl : option (N * fstream)) : conn := set_slots c ctl (c_enc c) (c_dec c) (c_wt c).
 Definition set_err (c : conn) (e : option N) (z : cause) : conn :=
   {| c_pending := c_pending c; c_control := c_control c; c_enc := c_enc c; c_dec := c_dec c; c_wt := c_wt c; c_got := c_got c;
      c_err := e; c_gflag := c_gflag c; c_gstep := c_gstep c; c_gid := c_gid c; c_settings := c_settings c;
-     c_closing := c_closing c; c_recv_closing := c_recv_closing c; c_acted := c_acted c; c_taken := c_taken c; c_handed := c_handed c; c_cause := Some z |}.
+     c_closing := c_closing c; c_recv_closing := c_recv_closing c; c_acted := c_acted c; c_taken := c_taken c; c_handed := c_handed c; c_cause := Some z; c_ctl0 := c_ctl0 c; c_trace := c_trace c |}.
 Definition log_taken (c : conn) (f : frame) : conn :=
   {| c_pending := c_pending c; c_control := c_control c; c_enc := c_enc c; c_dec := c_dec c; c_wt := c_wt c; c_got := c_got c;
      c_err := c_err c; c_gflag := c_gflag c; c_gstep := c_gstep c; c_gid := c_gid c; c_settings := c_settings c;
-     c_closing := c_closing c; c_recv_closing := c_recv_closing c; c_acted := c_acted c; c_taken := c_taken c ++ [f]; c_handed := c_handed c; c_cause := c_cause c |}.
+     c_closing := c_closing c; c_recv_closing := c_recv_closing c; c_acted := c_acted c; c_taken := c_taken c ++ [f]; c_handed := c_handed c; c_cause := c_cause c; c_ctl0 := c_ctl0 c; c_trace := c_trace c |}.
+Definition set_ghost (c : conn) (s0 : option fstream) (t : list action) : conn :=
+  {| c_pending := c_pending c; c_control := c_control c; c_enc := c_enc c; c_dec := c_dec c; c_wt := c_wt c; c_got := c_got c;
+     c_err := c_err c; c_gflag := c_gflag c; c_gstep := c_gstep c; c_gid := c_gid c; c_settings := c_settings c;
+     c_closing := c_closing c; c_recv_closing := c_recv_closing c; c_acted := c_acted c; c_taken := c_taken c; c_handed := c_handed c; c_cause := c_cause c; c_ctl0 := s0; c_trace := t |}.
 Definition log_handed (c : conn) (f : frame) : conn :=
   {| c_pending := c_pending c; c_control := c_control c; c_enc := c_enc c; c_dec := c_dec c; c_wt := c_wt c; c_got := c_got c;
      c_err := c_err c; c_gflag := c_gflag c; c_gstep := c_gstep c; c_gid := c_gid c; c_settings := c_settings c;
-     c_closing := c_closing c; c_recv_closing := c_recv_closing c; c_acted := c_acted c; c_taken := c_taken c; c_handed := c_handed c ++ [f]; c_cause := c_cause c |}.
+     c_closing := c_closing c; c_recv_closing := c_recv_closing c; c_acted := c_acted c; c_taken := c_taken c; c_handed := c_handed c ++ [f]; c_cause := c_cause c; c_ctl0 := c_ctl0 c; c_trace := c_trace c |}.
 Definition set_grease (c : conn) (f : bool) (s : gstep) (id : N) : conn :=
   {| c_pending := c_pending c; c_control := c_control c; c_enc := c_enc c; c_dec := c_dec c; c_wt := c_wt c; c_got := c_got c;
      c_err := c_err c; c_gflag := f; c_gstep := s; c_gid := id; c_settings := c_settings c;
-     c_closing := c_closing c; c_recv_closing := c_recv_closing c; c_acted := c_acted c; c_taken := c_taken c; c_handed := c_handed c; c_cause := c_cause c |}.
+     c_closing := c_closing c; c_recv_closing := c_recv_closing c; c_acted := c_acted c; c_taken := c_taken c; c_handed := c_handed c; c_cause := c_cause c; c_ctl0 := c_ctl0 c; c_trace := c_trace c |}.
 Definition set_got_settings (c : conn) (s : option Settings.applied) : conn :=
   {| c_pending := c_pending c; c_control := c_control c; c_enc := c_enc c; c_dec := c_dec c; c_wt := c_wt c; c_got := true;
      c_err := c_err c; c_gflag := c_gflag c; c_gstep := c_gstep c; c_gid := c_gid c; c_settings := s;
-     c_closing := c_closing c; c_recv_closing := c_recv_closing c; c_acted := c_acted c; c_taken := c_taken c; c_handed := c_handed c; c_cause := c_cause c |}.
+     c_closing := c_closing c; c_recv_closing := c_recv_closing c; c_acted := c_acted c; c_taken := c_taken c; c_handed := c_handed c; c_cause := c_cause c; c_ctl0 := c_ctl0 c; c_trace := c_trace c |}.
 Definition set_closing (c : conn) (rc : option N) : conn :=
   {| c_pending := c_pending c; c_control := c_control c; c_enc := c_enc c; c_dec := c_dec c; c_wt := c_wt c; c_got := c_got c;
      c_err := c_err c; c_gflag := c_gflag c; c_gstep := c_gstep c; c_gid := c_gid c; c_settings := c_settings c;
-     c_closing := true; c_recv_closing := rc; c_acted := c_acted c; c_taken := c_taken c; c_handed := c_handed c; c_cause := c_cause c |}.
+     c_closing := true; c_recv_closing := rc; c_acted := c_acted c; c_taken := c_taken c; c_handed := c_handed c; c_cause := c_cause c; c_ctl0 := c_ctl0 c; c_trace := c_trace c |}.
 Definition log_act (c : conn) (a : act) : conn :=
   {| c_pending := c_pending c; c_control := c_control c; c_enc := c_enc c; c_dec := c_dec c; c_wt := c_wt c; c_got := c_got c;
      c_err := c_err c; c_gflag := c_gflag c; c_gstep := c_gstep c; c_gid := c_gid c; c_settings := c_settings c;
-     c_closing := c_closing c; c_recv_closing := c_recv_closing c; c_acted := c_acted c ++ [a]; c_taken := c_taken c; c_handed := c_handed c; c_cause := c_cause c |}.
+     c_closing := c_closing c; c_recv_closing := c_recv_closing c; c_acted := c_acted c ++ [a]; c_taken := c_taken c; c_handed := c_handed c; c_cause := c_cause c; c_ctl0 := c_ctl0 c; c_trace := c_trace c |}.
 
 (* results of the poll functions of this file *)
 Inductive pres (A : Type) :=
@@ -236,6 +242,9 @@ Definition fail {A} (z : cause) (code : N) (s : cst) : pres A * cst :=
   | Some e => (PErr e, s)
   | None => (PErr code, (set_err c (Some code) z, log_close w code, wr))
   end.
+
+Definition fs_with_q (s : fstream) (q : rx) : fstream :=
+  {| st_buf := st_buf s; st_eos := st_eos s; st_memo := st_memo s; st_rem := st_rem s; st_q := q |}.
 
 (* the `for stream in pending_recv_streams` loop of poll_accept_recv; `kept` = entries still Some afterwards *)
 Fixpoint par_iter (wt : bool) (todo kept : list (N * arecv)) (s : cst) : pres unit * cst :=
@@ -256,7 +265,10 @@ Fixpoint par_iter (wt : bool) (todo kept : list (N * arecv)) (s : cst) : pres un
           | Ok UControl =>
               match c_control c with
               | Some _ => fail CzTwoControl code_par_two_control (c0, w1, wr)
-              | None => par_iter wt rest kept (set_control c (Some (id, into_frame_stream a')), w1, wr)
+              | None =>
+                  par_iter wt rest kept
+                    (set_ghost (set_control c (Some (id, into_frame_stream a'))) (Some (fs_with_q (into_frame_stream a') q')) [],
+                     w1, wr)
               end
           | Ok UEncoder =>
               if c_enc c then fail CzTwoEncoder code_par_two_encoder (c0, w1, wr)
@@ -346,9 +358,6 @@ Definition applied_of (payload : bytes) : Settings.applied :=
   end.
 Definition set_once {A} (c : option A) (a : A) : option A := match c with None => Some a | Some _ => c end.
 
-Definition fs_with_q (s : fstream) (q : rx) : fstream :=
-  {| st_buf := st_buf s; st_eos := st_eos s; st_memo := st_memo s; st_rem := st_rem s; st_q := q |}.
-
 (* the tail of poll_control once a frame has been taken out of the control stream *)
 Definition hand (f : frame) (s : cst) : pres frame * cst :=
   let '(c, w, wr) := s in (PReady f, (log_handed c f, w, wr)).
@@ -387,7 +396,7 @@ Definition poll_control (wt : bool) (s : cst) : pres frame * cst :=
         | Some (id, fs) =>
             let '(r, fs') := poll_next (fs_with_q fs (rxq w1 id)) in
             let w2 := set_rxq w1 id (st_q fs') in
-            let c2 := set_control c1 (Some (id, fs_with_q fs' [])) in
+            let c2 := set_ghost (set_control c1 (Some (id, fs_with_q fs' []))) (c_ctl0 c1) (c_trace c1 ++ [CallAuto]) in
             let s2 := (c2, w2, wr1) in
             match r with
             | Pending => (PPending, s2)
@@ -601,12 +610,19 @@ Definition drive (d : drv) : drv :=
   | PhShutdown => run_shutdown d1 (d_s d1)
   end.
 
+(* ghost: an arrival on the claimed control stream is appended to its trace *)
+Definition ghost_arrive (e : wev) (c : conn) : conn :=
+  match e, c_control c with
+  | EArrive id x, Some (cid, _) => if id =? cid then set_ghost c (c_ctl0 c) (c_trace c ++ [Arrive x]) else c
+  | _, _ => c
+  end.
+
 Definition step (d : drv) (e : wev) : drv :=
   match e with
   | EPoll => drive d
   | _ =>
       let '(c, w, wr) := d_s d in
-      {| d_role := d_role d; d_grease := d_grease d; d_wt := d_wt d; d_ph := d_ph d; d_s := (c, apply_wev e w, wr);
+      {| d_role := d_role d; d_grease := d_grease d; d_wt := d_wt d; d_ph := d_ph d; d_s := (ghost_arrive e c, apply_wev e w, wr);
          d_res := d_res d; d_polls := d_polls d; d_at := d_at d |}
   end.
 
